@@ -8,6 +8,12 @@ Core Lean only (the driver executable links this file).
 -/
 namespace Canine
 
+/-- a guard inside a handler: continue iff the condition holds, otherwise the handler fails -/
+def req (c : Prop) [Decidable c] : Option Unit := if c then some () else none
+
+@[simp] theorem req_eq_some (c : Prop) [Decidable c] (u : Unit) : req c = some u ↔ c := by
+  unfold req; split <;> simp [*]
+
 abbrev AMap (K V : Type) := List (K × V)
 
 namespace AMap
